@@ -1,1 +1,245 @@
-From Jawk Require Import Base.
+(* ShowExpr.v — every concrete spelling of a selection expression (property C13).
+   A spelling tree `sexpr` is an expression decorated with every freedom the reader leaves:
+   the alias used for a function, the leading-dot sugar, the runs of blanks and commas between
+   arguments, the spelling of JSON literals (Spec/Render.v), leading zeros of an index, "." or "#"
+   for the root, letter case and '_' / '-' of an input-context name, blanks around a selected name.
+   `show` gives the bytes, `expr_of` the syntax tree the text denotes, `xwf` says which trees are
+   admissible and `xfollow` what may come after the text of a tree.
+   Shared with the model: the stop sets of the token readers (key_stop, fname_stop, var_stop,
+   ictx_norm, ictx_names), the name table lookup (find_function over Gen.FnTable.fn_table,
+   fn_of_canonical, arity_ok) and `trim`'s notion of white space (is_uni_ws). *)
+From Jawk Require Import Base F64 Json Reader JsonParser Fn Expr Render ExprParser.
+From Jawk Require Gen.FnTable.
+Local Open Scope N_scope.
+
+(* ---------- the tree ---------- *)
+Inductive ssel :=
+| PKey (k : str)                 (* .key *)
+| PIdx (ds : list byte).         (* #digits, leading zeros allowed *)
+Inductive spath :=
+| PRoot (hash : bool)            (* "." alone, or "#" alone: the whole input *)
+| PPath (l : list ssel).         (* .a.b#3 ; the empty path is written by carets alone: "^" *)
+
+(* a run of blanks and commas: between arguments, before the closing parenthesis *)
+Definition pad := list byte.
+
+Inductive sexpr :=
+| XExtract (ups : nat) (p : spath)                            (* ^^.a.b#3 *)
+| XConst (t : sjson)                                          (* a JSON literal in any spelling *)
+| XVar (n : str)                                              (* :name *)
+| XMacro (n : str)                                            (* @name *)
+| XSelected (pad_l : str) (n : str) (pad_r : str)             (* / name / : the name is trimmed *)
+| XIctx (k : ictx_kind) (spelling : list byte)                (* &index, &Index_In_File ... *)
+| XCall (name : list byte) (dot : bool) (args : list (pad * sexpr)) (close : pad).
+    (* (name arg arg ...) ; dot = leading-dot sugar: "(.name x)" = "(name . x)" ;
+       each argument comes with the run of blanks and commas written before it *)
+
+(* ---------- the text ---------- *)
+Definition show_sel (s : ssel) : list byte :=
+  match s with PKey k => 46 :: utf8_encode k | PIdx ds => 35 :: ds end.
+Definition show_sels (l : list ssel) : list byte := flat_map show_sel l.
+Definition show_path (p : spath) : list byte :=
+  match p with PRoot h => [if h then 35 else 46] | PPath l => show_sels l end.
+Definition carets (n : nat) : list byte := repeat 94 n.
+
+Fixpoint show (x : sexpr) : list byte :=
+  match x with
+  | XExtract ups p => carets ups ++ show_path p
+  | XConst t => render t
+  | XVar n => 58 :: utf8_encode n
+  | XMacro n => 64 :: utf8_encode n
+  | XSelected pl n pr => 47 :: utf8_encode (pl ++ n ++ pr) ++ [47]
+  | XIctx _ sp => 38 :: sp
+  | XCall name dot args close =>
+      40 :: (if dot then [46] else []) ++ name ++
+      (fix sa (args : list (pad * sexpr)) : list byte :=
+         match args with
+         | [] => close ++ [41]
+         | (s, a) :: more => s ++ show a ++ sa more
+         end) args
+  end.
+
+(* the arguments and the closing parenthesis (the inner loop of `show`, named) *)
+Fixpoint show_args (args : list (pad * sexpr)) (close : pad) : list byte :=
+  match args with
+  | [] => close ++ [41]
+  | (s, a) :: more => s ++ show a ++ show_args more close
+  end.
+
+(* ---------- the denoted syntax tree ---------- *)
+Definition sel_of (s : ssel) : sel :=
+  match s with PKey k => SKey k | PIdx ds => SIdx (N_of_digits ds) end.
+Definition path_of (p : spath) : option (list sel) :=
+  match p with PRoot _ => None | PPath l => Some (map sel_of l) end.
+
+(* the arguments written by the dot sugar *)
+Definition dot_args (dot : bool) : list expr := if dot then [EExtract O None] else [].
+
+(* name resolution and arity check, on the generated table *)
+Definition call_of (name : list byte) (all_args : list expr) : option expr :=
+  match find_function name Gen.FnTable.fn_table with
+  | None => None
+  | Some (canon, mn, mx) =>
+      if arity_ok (length all_args) mn mx then Some (ECall (fn_of_canonical canon) all_args) else None
+  end.
+
+Fixpoint expr_of (x : sexpr) : option expr :=
+  match x with
+  | XExtract ups p => Some (EExtract ups (path_of p))
+  | XConst t => option_map EConst (value_of t)
+  | XVar n => Some (EVar n)
+  | XMacro n => Some (EMacro n)
+  | XSelected _ n _ => Some (ESelected n)
+  | XIctx k _ => Some (EIctx k)
+  | XCall name dot args _ =>
+      match (fix ea (args : list (pad * sexpr)) : option (list expr) :=
+               match args with
+               | [] => Some []
+               | (_, a) :: more =>
+                   match expr_of a, ea more with Some e, Some es => Some (e :: es) | _, _ => None end
+               end) args with
+      | Some es => call_of name (dot_args dot ++ es)
+      | None => None
+      end
+  end.
+
+Fixpoint exprs_of (args : list (pad * sexpr)) : option (list expr) :=
+  match args with
+  | [] => Some []
+  | (_, a) :: more =>
+      match expr_of a, exprs_of more with Some e, Some es => Some (e :: es) | _, _ => None end
+  end.
+
+(* ---------- what may follow ---------- *)
+(* the text that follows is empty or starts with a byte satisfying p *)
+Definition at_end (p : byte -> bool) (tl : list byte) : Prop :=
+  match tl with b :: _ => p b = true | [] => True end.
+
+Definition not_digit (b : byte) : bool := negb (is_digit b).
+Definition not_path_start (b : byte) : bool := negb (mem_N b [46; 35]).
+Definition not_extractor_start (b : byte) : bool := negb (mem_N b [94; 46; 35]).
+Definition not_number_part (b : byte) : bool :=
+  negb (is_digit b) && negb (b =? 46) && negb (is_exp_marker b).
+Definition not_ictx_letter (b : byte) : bool :=
+  match ictx_norm b with None => true | Some _ => false end.
+
+Definition last_sel (l : list ssel) : option ssel := last (map Some l) None.
+
+Definition sel_follow (s : ssel) (tl : list byte) : Prop :=
+  match s with
+  | PKey _ => at_end key_stop tl        (* a key runs up to a stop byte *)
+  | PIdx _ => at_end not_digit tl
+  end.
+
+Definition json_follow (t : sjson) (tl : list byte) : Prop :=
+  match t with SNum _ => at_end not_number_part tl | _ => True end.
+
+Definition xfollow (x : sexpr) (tl : list byte) : Prop :=
+  match x with
+  | XExtract _ (PRoot false) => at_end key_stop tl       (* "." then a key byte would be a key *)
+  | XExtract _ (PRoot true) => at_end not_digit tl       (* "#" then a digit would be an index *)
+  | XExtract _ (PPath l) =>
+      match last_sel l with
+      | None => at_end not_extractor_start tl
+      | Some s => sel_follow s tl /\ at_end not_path_start tl
+      end
+  | XConst t => json_follow t tl
+  | XVar _ | XMacro _ => at_end var_stop tl
+  | XIctx _ _ => at_end not_ictx_letter tl
+  | XSelected _ _ _ | XCall _ _ _ _ => True              (* closed by '/' and ')' *)
+  end.
+
+(* ---------- admissible trees ---------- *)
+Definition is_pad_byte (b : byte) : bool := is_ws b || (b =? 44).
+Definition pad_ok (s : pad) : Prop := Forall (fun b => is_pad_byte b = true) s.
+
+Definition scalars (s : str) : Prop := Forall (fun c => is_scalar c = true) s.
+(* a name read up to a stop byte: non-empty, encodable, no stop byte inside *)
+Definition name_ok (stop : byte -> bool) (n : str) : Prop :=
+  n <> [] /\ scalars n /\ Forall (fun b => stop b = false) (utf8_encode n).
+
+Definition sel_ok (s : ssel) : Prop :=
+  match s with
+  | PKey k => name_ok key_stop k
+  | PIdx ds => digits_ok ds /\ N_of_digits ds <= usize_max
+  end.
+
+Definition uni_ws (s : str) : Prop := Forall (fun c => is_uni_ws c = true) s.
+Definition no_ws_head (s : str) : Prop :=
+  match s with c :: _ => is_uni_ws c = false | [] => True end.
+Definition trimmed (s : str) : Prop := no_ws_head s /\ no_ws_head (rev s).
+
+Fixpoint norm_all (l : list byte) : option (list byte) :=
+  match l with
+  | [] => Some []
+  | b :: t => match ictx_norm b, norm_all t with Some x, Some y => Some (x :: y) | _, _ => None end
+  end.
+
+Fixpoint xwf (x : sexpr) : Prop :=
+  match x with
+  | XExtract ups (PRoot _) => True
+  | XExtract ups (PPath l) => (l = [] -> ups <> O) /\ Forall sel_ok l
+  | XConst t => wf t
+  | XVar n | XMacro n => name_ok var_stop n
+  | XSelected pl n pr =>
+      uni_ws pl /\ uni_ws pr /\ trimmed n /\
+      name_ok (fun b => b =? 47) (pl ++ n ++ pr)
+  | XIctx k sp =>
+      match norm_all sp with Some nm => assoc_bytes_k nm ictx_names = Some k | None => False end
+  | XCall name dot args close =>
+      (* the name (an entry of the table: see expr_of) ends where the arguments start *)
+      at_end fname_stop
+        ((fix sa (args : list (pad * sexpr)) : list byte :=
+            match args with
+            | [] => close ++ [41]
+            | (s, a) :: more => s ++ show a ++ sa more
+            end) args) /\
+      pad_ok close /\
+      (fix wa (args : list (pad * sexpr)) : Prop :=
+         match args with
+         | [] => True
+         | (s, a) :: more =>
+             pad_ok s /\ xwf a /\ xfollow a (show_args more close) /\ wa more
+         end) args
+  end.
+
+Fixpoint xwf_args (args : list (pad * sexpr)) (close : pad) : Prop :=
+  match args with
+  | [] => True
+  | (s, a) :: more => pad_ok s /\ xwf a /\ xfollow a (show_args more close) /\ xwf_args more close
+  end.
+
+(* ---------- the plain reading: separators are non-empty ---------- *)
+(* With at least one blank or comma before every argument nothing has to be said about followers
+   inside a call (Proofs/ExprParseProofs.v: xwf_plain_xwf). *)
+Definition sep_ok (s : pad) : Prop := s <> [] /\ pad_ok s.
+
+Fixpoint xwf_plain (x : sexpr) : Prop :=
+  match x with
+  | XCall name dot args close =>
+      pad_ok close /\
+      (fix wa (args : list (pad * sexpr)) : Prop :=
+         match args with
+         | [] => True
+         | (s, a) :: more => sep_ok s /\ xwf_plain a /\ wa more
+         end) args
+  | XExtract ups (PRoot _) => True
+  | XExtract ups (PPath l) => (l = [] -> ups <> O) /\ Forall sel_ok l
+  | XConst t => wf t
+  | XVar n | XMacro n => name_ok var_stop n
+  | XSelected pl n pr =>
+      uni_ws pl /\ uni_ws pr /\ trimmed n /\ name_ok (fun b => b =? 47) (pl ++ n ++ pr)
+  | XIctx k sp =>
+      match norm_all sp with Some nm => assoc_bytes_k nm ictx_names = Some k | None => False end
+  end.
+
+Fixpoint xwf_plain_args (args : list (pad * sexpr)) : Prop :=
+  match args with
+  | [] => True
+  | (s, a) :: more => sep_ok s /\ xwf_plain a /\ xwf_plain_args more
+  end.
+
+(* ---------- direction suffix of --sort-by ---------- *)
+(* a word in any letter case: each byte is the upper-case letter or its lower-case form *)
+Definition ci_word (w upper_word : list byte) : Prop :=
+  Forall2 (fun b u => b = u \/ b = u + 32) w upper_word.
